@@ -70,6 +70,85 @@ TilesPayload(hdr) ==
     /\ Cardinality(s) = PayloadLen(hdr)                       \* as many slots as bytes
     /\ {x[5] : x \in s} = 0..(PayloadLen(hdr) - 1)            \* no gap, no overlap
 
+\* ------------------------------------------- arrays and the size ladder ---
+(***************************************************************************)
+(* The arrays of the layout in stream order and, for a delivery            *)
+(* granularity g (the consumer of the stream is handed bytes in pieces     *)
+(* that end at every multiple of g: 32768 for the inflate window, 4096 for *)
+(* a bufio buffer, anything for an arbitrary io.Reader), the point counts  *)
+(* for which such a boundary falls STRICTLY INSIDE a given array.  Offsets *)
+(* are offsets of the uncompressed stream (header included).               *)
+(***************************************************************************)
+HdrLen == 16
+Arrays == <<"pos", "alpha", "color", "scale", "rot", "sh">>
+NextArr(a) == CASE a = "pos" -> "alpha" [] a = "alpha" -> "color" [] a = "color" -> "scale"
+                [] a = "scale" -> "rot" [] a = "rot" -> "sh" [] a = "sh" -> "end"
+ArrBase(hdr, a) == CASE a = "pos" -> 0 [] a = "alpha" -> BaseAlpha(hdr) [] a = "color" -> BaseColor(hdr)
+                     [] a = "scale" -> BaseScale(hdr) [] a = "rot" -> BaseRot(hdr) [] a = "sh" -> BaseSh(hdr)
+                     [] a = "end" -> PayloadLen(hdr)
+ArrLo(hdr, a) == HdrLen + ArrBase(hdr, a)                 \* stream offset of the first byte
+ArrHi(hdr, a) == HdrLen + ArrBase(hdr, NextArr(a))        \* stream offset after the last byte
+\* some multiple of g lies strictly between the first and the last byte of the array
+Split(hdr, a, g) == ((ArrLo(hdr, a) \div g) + 1) * g < ArrHi(hdr, a)
+\* the arrays of a stream that a delivery of granularity g cuts
+SplitArrays(hdr, g) == {Arrays[k] : k \in {x \in 1..6 : Split(hdr, Arrays[x], g)}}
+\* the first array (in stream order) that the delivery cuts; "" if none
+FirstSplit(hdr, g) ==
+    LET sp == {x \in 1..6 : Split(hdr, Arrays[x], g)}
+    IN IF sp = {} THEN "" ELSE Arrays[CHOOSE x \in sp : \A y \in sp : x <= y]
+\* least point count for which the k-th multiple of g (k <= 64) cuts array a, preferring
+\* counts for which a is the FIRST array cut (a decoder that mishandles a short read is
+\* then wrong from exactly that array on); 0: none.
+\* For a fixed k the array [16 + al*N, 16 + be*N) contains k*g strictly iff
+\* al*N < k*g - 16 < be*N, so the least N is (k*g - 16) \div be + 1 if that one qualifies.
+LadderCount(version, deg, a, g) ==
+    LET u == <<version, 1, deg, 0>>
+        be == ArrBase(u, NextArr(a))
+        cand == IF be = 0 THEN {} ELSE {((k * g - HdrLen) \div be) + 1 : k \in 1..64}
+        ok == {n \in cand : n >= 1 /\ Split(<<version, n, deg, 0>>, a, g)}
+        first == {n \in ok : FirstSplit(<<version, n, deg, 0>>, g) = a}
+        Least(S) == CHOOSE x \in S : \A y \in S : x <= y
+    IN IF ok = {} THEN 0 ELSE IF first # {} THEN Least(first) ELSE Least(ok)
+
+\* ------------------------------------------------- boundary value ladders ---
+RECURSIVE Pow2(_)
+Pow2(k) == IF k = 0 THEN 1 ELSE 2 * Pow2(k - 1)
+\* a k-bit field (unsigned or two's complement): 0, 1, 2^(k-1)-1, 2^(k-1), 2^(k-1)+1, 2^k-1
+LadderSeq(k) == <<0, 1, Pow2(k - 1) - 1, Pow2(k - 1), Pow2(k - 1) + 1, Pow2(k) - 1>>
+\* half floats: the 16 bit ladder, then -0 is 2^15 already; largest subnormal, least normal,
+\* largest finite, +inf, -inf, quiet nan, 1.0, -largest finite
+HalfLadder == LadderSeq(16) \o <<1023, 1024, 31743, 31744, 64512, 32256, 15360, 64511>>
+\* the fractional-bit count is an 8 bit header field; the interesting values are its own
+\* ladder and the neighbours of every machine word width a shift could be computed in
+FbLadderSet == ({LadderSeq(8)[k] : k \in 1..6}
+                \cup UNION {{w - 2, w - 1, w, w + 1} : w \in {8, 16, 24, 32, 64, 128}}) \cap 0..255
+
+\* -------------------------------------------------------- content patterns --
+\* byte j (0-based) of the payload as a function of the index, so that neither
+\* the cases nor the traces need to carry the bytes of large streams
+PlainByte(pat, j) ==
+    CASE pat = "perm" -> (37 * j + 11) % 256
+      [] pat = "perm2" -> (91 * j + 200) % 256
+      [] pat = "ff" -> 255
+      [] pat = "80" -> 128
+      [] pat = "00" -> 0
+      [] pat = "7f80" -> IF j % 2 = 0 THEN 127 ELSE 128
+      [] pat = "p251" -> (7 * (j % 251) + 3) % 256       \* period 251: prime, coprime to every stride and to every g
+\* "edge": every position word runs through the ladder of its width (24 bit fixed point
+\* or half float), rotated by the coordinate so that every coordinate meets every value;
+\* every byte field runs through the 8 bit ladder in the same manner
+EdgeByte(hdr, j) ==
+    LET psz == PosSize(hdr[1]) IN
+    IF j < BaseAlpha(hdr)
+    THEN LET w == j \div psz
+             lad == IF hdr[1] = 1 THEN HalfLadder ELSE LadderSeq(24)
+             v == lad[(((w \div 3) + (w % 3)) % Len(lad)) + 1]
+         IN (v \div Pow2(8 * (j % psz))) % 256
+    ELSE LET jj == j - BaseAlpha(hdr) IN LadderSeq(8)[(((jj \div 3) + (jj % 3)) % 6) + 1]
+PatByte(pat, hdr, j) == IF pat = "edge" THEN EdgeByte(hdr, j) ELSE PlainByte(pat, j)
+PatPayload(pat, hdr) == [j \in 1..PayloadLen(hdr) |-> PatByte(pat, hdr, j - 1)]
+PatPeriod(pat) == IF pat = "p251" THEN 251 ELSE 0        \* period of the decoded arrays in the point index (0: none used)
+
 \* ------------------------------------------------------- dequantisers ----
 \* exact dyadic value m * 2^e in normal form; kind 0 finite, 1 nan, 2 +inf, 3 -inf
 RECURSIVE NormPos(_, _)
